@@ -228,7 +228,17 @@ def _started_count_ok(st):
         if isinstance(s, ast.For) and isinstance(s.iter, ast.Call) and dotted(s.iter.func) == "range":
             a = s.iter.args
             if len(a) == 1 and isinstance(a[0], ast.Name):
-                return a[0].id in st.func.params()
+                nm = a[0].id
+                for _hop in range(3):       # through plain aliases (`count = parallel` of a spliced-in helper)
+                    if nm in st.func.params():
+                        return True
+                    defs = [n for n in own_nodes(st.func.node) if isinstance(n, ast.Assign) and len(n.targets) == 1 and isinstance(n.targets[0], ast.Name)
+                            and n.targets[0].id == nm]
+                    if len(defs) == 1 and isinstance(defs[0].value, ast.Name):
+                        nm = defs[0].value.id
+                    else:
+                        break
+                return nm in st.func.params()
             return None
     return None
 
